@@ -115,9 +115,16 @@ pub fn execute_program(
         )
     };
 
+    #[cfg(feature = "verif-hooks")]
+    let mut verif_budget = crate::verif_hooks::BudgetGuard::new();
+
     // Loop on instructions
     let mut insn_ptr: usize = 0;
     while insn_ptr * ebpf::INSN_SIZE < prog.len() {
+        #[cfg(feature = "verif-hooks")]
+        if !verif_budget.step() {
+            return Err(Error::other(crate::verif_hooks::BUDGET_EXHAUSTED_MSG));
+        }
         let insn = ebpf::get_insn(prog, insn_ptr);
         if stack_frame_idx < MAX_CALL_DEPTH
             && let Some(usage) = stack_usage.stack_usage_for_local_func(insn_ptr) {
